@@ -79,6 +79,10 @@ Definition cb_cid (b : cb val) : cid :=
 Definition empty_refresh (c : cid) (it : op val * list (cb val)) (b : cb val) : Prop :=
   fst it = ORefresh c /\ exists p, b = CbRefresh c p [].
 
+(* nothing in the callbacks of history item [it] is addressed to c, except such answers *)
+Definition quiet_for (c : cid) (it : op val * list (cb val)) : Prop :=
+  forall b, In b (snd it) -> cb_cid b = c -> empty_refresh c it b.
+
 End Spec.
 
 (* A concrete selection for the examples: paths are (local-pref, next-hop) pairs; higher local-pref
